@@ -1253,3 +1253,59 @@ rule("D6.string_ne_lit",
      "action != $l:str",
      "! shim_string_eq_str ( & action , $l )",
      "String != \"literal\" (cross-type comparison, unspecified in vstd)")
+
+
+def let_else_continue(toks):
+    """`let PAT = EXPR else { continue; } ; REST` (REST = the remaining statements of the loop body)  ->  `if let PAT = EXPR { REST }`.
+    Verus for-loops do not support `continue`; skipping the rest of the body is what `continue` does."""
+    out = list(toks)
+    count = 0
+    i = 0
+    while i < len(out):
+        if out[i].kind == "id" and out[i].text == "let":
+            # find `else {` at depth 0 before the terminating `;`
+            j = i + 1
+            depth = 0
+            else_at = None
+            while j < len(out):
+                tx = out[j].text
+                if tx in OPEN:
+                    depth += 1
+                elif tx in CLOSE:
+                    if depth == 0:
+                        break
+                    depth -= 1
+                elif tx == ";" and depth == 0:
+                    break
+                elif tx == "else" and depth == 0 and j + 1 < len(out) and out[j + 1].text == "{":
+                    else_at = j
+                    break
+                j += 1
+            if else_at is not None:
+                c = match_close(out, else_at + 1)
+                inner = [x.text for x in out[else_at + 2:c]]
+                if inner in (["continue"], ["continue", ";"]) and c + 1 < len(out) and out[c + 1].text == ";":
+                    # enclosing block close
+                    depth = 0
+                    k = c + 2
+                    while k < len(out):
+                        if out[k].text in OPEN:
+                            depth += 1
+                        elif out[k].text in CLOSE:
+                            if depth == 0:
+                                break
+                            depth -= 1
+                        k += 1
+                    line = out[i].line
+                    head = T("if", line) + out[i:else_at]                 # `if let PAT = EXPR`
+                    rest = out[c + 2:k]
+                    new = head + T("{", line) + rest + T("}", out[k].line if k < len(out) else line)
+                    out[i:k] = new
+                    count += 1
+                    i += len(head) + 1
+                    continue
+        i += 1
+    return out, count
+
+
+pyrule("D17.let_else_continue", let_else_continue, let_else_continue.__doc__)
